@@ -5,8 +5,8 @@ from pyvc.schema import Int, Bool, Const, Bytes, ByteArray, ListOf, Obj, Opt, On
 from pyvc.specrt import implies, ite
 
 
-def radio_schema(ce=None, plain=False):
-    return Share("hw", Obj("spec.hw:Radio", {
+def radio_schema(ce=None, plain=False, env=None):
+    f = {
         "reg": ListOf([Int(0, 255) for _ in range(0x1E)]),
         "addr0": ByteArray(5, 5), "addr1": ByteArray(5, 5), "txaddr": ByteArray(5, 5),
         "rx_n": Int(0, 3), "rx_pipe": ListOf([Int(0, 5) for _ in range(3)]),
@@ -19,14 +19,21 @@ def radio_schema(ce=None, plain=False):
         "ce": Bool() if ce is None else Const(ce),
         "bad_write": Const(False), "frames": Const(0), "ce_log": Const(0),
         "activates": Const(0), "loaded": Const(0),
-    }))
+        # PTX engine ghost (inert unless env_on)
+        "env_on": Const(False), "inflight": Const(False), "budget": Const(0), "att_n": Const(0), "att_txn": Const(0),
+        "att_len": Const(0), "att_data": Const(bytes(32)), "n_ds": Const(0), "n_rt": Const(0), "ack_rx": Const(0),
+        "ackpl": Const(bytes(32)),
+    }
+    if env:
+        f.update(env)
+    return Share("hw", Obj("spec.hw:Radio", f))
 
 
-def rf24_schema(cls="rf24:RF24", p0=None, extra=None):
+def rf24_schema(cls="rf24:RF24", p0=None, extra=None, env=None):
     fields = {
         "_in": ByteArray(97, 97), "_out": ByteArray(97, 97),
-        "_ce_pin": Obj("spec.hw:Pin", {"hw": radio_schema()}),
-        "_spi": Obj("spec.hw:SpiStub", {"hw": radio_schema()}),
+        "_ce_pin": Obj("spec.hw:Pin", {"hw": radio_schema(env=env)}),
+        "_spi": Obj("spec.hw:SpiStub", {"hw": radio_schema(env=env)}),
         "_pipes": ListOf([ByteArray(5, 5), ByteArray(5, 5), Int(0, 255), Int(0, 255), Int(0, 255), Int(0, 255)]),
         "_config": Int(0, 255), "_open_pipes": Int(0, 255), "_is_plus_variant": Const(True),
         "_features": Int(0, 255),
